@@ -17,6 +17,17 @@
 //     SetSequence/NextSequence) is counted per transaction and offered to
 //     Hooks.BeforeWrite, which can fail it before the backend is touched.
 //
+// Native mode (DB.SetNative(true)): OnCommit registrations ARE forwarded to the
+// backend, so the handlers are run by the backend itself, in its own order and
+// at its own point of Commit (bbolt: after tx.close() released the writer lock).
+// The proxy registers two handlers of its own on the backend transaction: the
+// first one (registered at Begin, hence run first) calls Hooks.AfterCommit -
+// it may block, which parks the transaction between "writer lock released" and
+// "the code's handlers ran" exactly as in the default mode - and the last one
+// (registered at the start of Commit) calls Hooks.AfterCallbacks.  In this
+// mode the real Commit returns only after all handlers ran, so AroundCommit
+// wraps commit AND handlers.
+//
 // Buckets obtained from a proxied write transaction are proxies too, so that
 // bucket.Tx() is the proxied transaction (waddrmgr registers its handlers
 // through ns.Tx().OnCommit).  Read-only buckets and read cursors are the
@@ -56,6 +67,7 @@ type TxInfo struct {
 	Managed   bool // opened by DB.Update / DB.View (as opposed to Begin*Tx)
 	Writes    int  // mutating calls attempted so far (the current one included in BeforeWrite)
 	Callbacks int  // OnCommit registrations so far
+	Native    bool // the backend runs the OnCommit handlers (DB.SetNative)
 	User      interface{}
 }
 
@@ -86,10 +98,11 @@ type Hooks struct {
 
 // DB is the proxy.
 type DB struct {
-	inner walletdb.DB
-	seq   int64
-	mu    sync.RWMutex
-	hooks *Hooks
+	inner  walletdb.DB
+	seq    int64
+	mu     sync.RWMutex
+	hooks  *Hooks
+	native bool
 }
 
 var _ walletdb.DB = (*DB)(nil)
@@ -106,6 +119,20 @@ func (d *DB) SetHooks(h *Hooks) {
 	d.mu.Lock()
 	d.hooks = h
 	d.mu.Unlock()
+}
+
+// SetNative switches native mode on or off for write transactions begun
+// afterwards (see the package comment).
+func (d *DB) SetNative(on bool) {
+	d.mu.Lock()
+	d.native = on
+	d.mu.Unlock()
+}
+
+func (d *DB) isNative() bool {
+	d.mu.RLock()
+	defer d.mu.RUnlock()
+	return d.native
 }
 
 // Inner returns the wrapped database.
@@ -140,8 +167,17 @@ func (d *DB) beginWrite(managed bool) (*rwTx, error) {
 	if err != nil {
 		return nil, err
 	}
-	info := &TxInfo{ID: atomic.AddInt64(&d.seq, 1), Writable: true, Managed: managed}
+	info := &TxInfo{ID: atomic.AddInt64(&d.seq, 1), Writable: true, Managed: managed, Native: d.isNative()}
 	p := &rwTx{db: d, real: tx, info: info}
+	if info.Native {
+		// registered first, so the backend runs it first: right after the
+		// real commit released the writer lock, before the code's handlers
+		tx.OnCommit(func() {
+			if f := d.h().AfterCommit; f != nil {
+				f(info)
+			}
+		})
+	}
 	if f := d.h().OnBegin; f != nil {
 		f(info)
 	}
@@ -262,6 +298,10 @@ func (t *rwTx) DeleteTopLevelBucket(key []byte) error {
 // OnCommit collects the handler; see the package comment.
 func (t *rwTx) OnCommit(f func()) {
 	t.info.Callbacks++
+	if t.info.Native {
+		t.real.OnCommit(f)
+		return
+	}
 	t.callbacks = append(t.callbacks, f)
 }
 
@@ -274,6 +314,18 @@ func (t *rwTx) Commit() error {
 		}
 	}
 	t.done = true
+	if t.info.Native {
+		// registered last: runs after the code's handlers, inside the real Commit
+		t.real.OnCommit(func() {
+			if f := t.db.h().AfterCallbacks; f != nil {
+				f(t.info)
+			}
+		})
+		if h.AroundCommit != nil {
+			return h.AroundCommit(t.info, t.real.Commit)
+		}
+		return t.real.Commit()
+	}
 	var err error
 	if h.AroundCommit != nil {
 		err = h.AroundCommit(t.info, t.real.Commit)
